@@ -4,7 +4,9 @@ package main
 
 const parseKeyPresent = false
 
-func hostParseClientKey(key []byte) (string, []byte, bool) { panic("host.ParseClientKey does not exist in this tree") }
+func hostParseClientKey(key []byte) (string, []byte, bool) {
+	panic("host.ParseClientKey does not exist in this tree")
+}
 
 func hostParseConsensusStateKey(key []byte) (uint64, uint64, bool) {
 	panic("host.ParseConsensusStateKey does not exist in this tree")
